@@ -293,6 +293,22 @@ def run_gram(torch, gpytorch, c, cache=None):
         rec("gram-raises", Kd)
         return res
     rec("gram", psd_report(torch, Kd, "Gram matrix K(x,x) of %d points" % x.shape[0]), sample=True)
+    # the joint over [x1; x2] assembled from separately requested blocks (what a prediction above max_eager_kernel_size does): symmetric PSD too
+    u = max(1, x.shape[0] // 6)
+    was_training = kern.training
+    kern.eval()                  # cross-covariance blocks are requested by predictions (InducingPointKernel refuses x1 != x2 in training mode)
+    for (a, b) in c.get("splits", []):
+        x1, x2 = x[:a * u], x[a * u:(a + b) * u]
+        with torch.no_grad():
+            ok, J = core.guarded(lambda: torch.cat([torch.cat([kern(x1).to_dense(), kern(x1, x2).to_dense()], -1),
+                                                    torch.cat([kern(x2, x1).to_dense(), kern(x2).to_dense()], -1)], -2))
+        what = "assembled-%s" % ("equal-blocks" if a == b else "unequal-blocks")
+        if not ok:
+            rec(what + "-raises", J, sig="C07/%s/%s/%s/raises" % (what, name, geom))
+            continue
+        rec(what, psd_report(torch, J, "joint covariance of %d + %d points assembled from the blocks K(x1,x1), K(x1,x2), K(x2,x1), K(x2,x2)" % (x1.shape[0], x2.shape[0]),
+                             stol=1e-7))      # K(x1,x2) and K(x2,x1) are separate floating-point computations: a distance of 0 comes out as sqrt(rounding) ~ 1e-8
+    kern.train(was_training)     # (a mode change drops the evaluation-mode caches)
     if fam == "pwpoly" and geom == "dense" and c.get("phi"):
         # PD certificate: with j = floor(d/2) + q + 1 the documented function is positive definite in R^d; the kernel must BE
         # that function (a smaller exponent is indefinite in R^d although sampled Gram matrices look fine for q >= 2)
@@ -818,7 +834,7 @@ def run(ck):
     # (3c) the noise a likelihood adds: Gaussian family x switches x constraint class x raw class
     job("noise", "Validity noise lattice (likelihood family x switches x constraint x raw value class)", part="noise", invariants=["NoiseAtLeastBound", "NoiseSwitches"])
     # (4) the kernel lattice
-    job("lattice", "Validity kernel lattice", part="lattice", scales=scales, invariants=["DomainOK", "SupportOK"])
+    job("lattice", "Validity kernel lattice", part="lattice", scales=scales, invariants=["DomainOK", "SupportOK", "AssemblyOK"])
     # the exact chain run does not generate cases: it runs (single-threaded) next to the other runs and the replay
     from concurrent.futures import ThreadPoolExecutor
     bg = ThreadPoolExecutor(max_workers=1)
@@ -875,7 +891,8 @@ def run(ck):
         if not o["psd"]:
             raise core.Machinery("the lattice only holds cells that are PSD on their documented domain")
         cells.append(dict(what="gram", fam=c["fam"], arg=c["arg"], d=c["d"], ard=bool(c["ard"]), geom=c["geom"], ls=c["ls"], dom=c["dom"], n=100,
-                          j=o["j"], phi=[list(v) for v in o["phi"]], radii=[[0, 1], [1, 4], [1, 2], [3, 4], [1, 1], [5, 4]]))
+                          j=o["j"], phi=[list(v) for v in o["phi"]], radii=[[0, 1], [1, 4], [1, 2], [3, 4], [1, 1], [5, 4]],
+                          splits=sorted([int(a), int(b)] for a, b in o["splits"])))
     fams = families(torch, gpytorch)
     if not cells or set(c["fam"] for c in cells) != set(fams):
         ck.vacuous("kernel lattice of the spec and the builders of the check differ: %s" % sorted(set(c["fam"] for c in cells) ^ set(fams)))
